@@ -13,7 +13,8 @@ RACE = True
 JOBS = 8
 BATCH_TIMEOUT = 400
 RULE = ("scenario = one forward.New proxy (StateListener around it, real net/http server, transport with ResponseHeaderTimeout) and a scripted raw "
-        "loopback backend; ops: a backend response (also 2-6 concurrent ones) (status, header set, body size 0..1MiB (thorough 8MiB), Content-Length / chunked / close-delimited framing, "
+        "loopback backend, in 2/3 of the scenarios with a real pass-through oxy middleware (CircuitBreaker that cannot trip, Tracer, Rebalancer, verbose RoundRobin) between the listener and the forwarder; "
+        "ops: a backend response, optionally preceded by 1xx interim responses (also 2-6 concurrent ones) (status, header set, body size 0..1MiB (thorough 8MiB), Content-Length / chunked / close-delimited framing, "
         "write-size and flush pattern, header sets up to 64 KiB (thorough 300 KiB) as one long value, a few, or hundreds of short ones; half of the scenarios keep the transport forward.New chose), a failure mode (refused, RST or FIN before the head, garbage, header timeout, client cancellation), an abort "
         "after the head, or a StateListener around a returning / panicking handler; non-trivial = at least one failure or abort op and one response "
         "with a body >= 4096 bytes or chunked framing")
@@ -25,7 +26,11 @@ ASSUMPTIONS = [
     "httputil.ReverseProxy.copyResponse and net/http; exercised (digest of the bytes the client received vs digest of the bytes sent), not verified",
     "the proxy's own net/http server adds Date, Content-Length / Transfer-Encoding framing and Connection: close/keep-alive for its hop to the client; "
     "these are left out of the comparison; a 304 carries no Content-Type (the server strips it)",
-    "statuses 1xx and 101 (protocol switch), response trailers, HEAD and HTTP/2 backends are outside the generated scope",
+    "final statuses are never 1xx; interim 102/103 responses before the final head are generated (the final status/headers/body must be unaffected; that the interim ones are passed on is "
+    "checked by the correspondence only); 101 (protocol switch), response trailers, HEAD and HTTP/2 backends are outside the generated scope",
+    "an upstream pass-through middleware (up=cb|trace|rb|rr-verbose) must change nothing: the model ignores it (relayOutcome as is)",
+    "client-side observation of a body: 'aborted' = read error or bytes missing against the declared framing; 'short' = framing ended cleanly but below the scripted total (chunked: "
+    "terminal chunk seen early) — a violation; otherwise length+digest",
     "loopback sockets only; no wall-clock assertion other than 'an op finishes within the 5 s watchdog'; the response-header timeout is 120 ms in stall scenarios",
     "'backend cannot be reached -> 502' is proved and exercised for refused connections and for RST/FIN before the head; a backend that is unreachable by *timing out* "
     "(black-holed dial, net.Error with Timeout()) is classified 504 by utils.StdHandler like every timeout (ErrKind.netTimeout) — outside the quantifier's list, not exercised",
@@ -152,10 +157,17 @@ def gen_resp(rng, tier):
         rh.append(("Connection", rng.choice([",", ", "]).join(t)))
     if rng.random() < 0.12:
         rh += big_headers(rng, tier)
+    if rng.random() < 0.15:
+        # interim responses (103 Early Hints, 102 Processing) before the final head
+        toks.append("pre=" + rng.choice(["103", "103", "102", "103,103", "103,102"]))
     rng.shuffle(rh)
     for nm, v in rh:
         toks.append("rh=%s:%s" % (nm, pe(v.strip(" \t"))))
     return " ".join(toks)
+
+
+# what sits between the StateListener and the forwarder: nothing, or a real oxy middleware that never intervenes
+UPS = ["none", "none", "cb", "trace", "rb", "rr-verbose"]
 
 
 def gen_presp(rng):
@@ -182,7 +194,7 @@ def gen(rng, tier):
     for k in range(n_scen):
         if k % 6 == 5:
             # short response-header timeout: only ops whose outcome does not depend on the backend answering in time
-            lines = ["cfg rht=120 tr=" + rng.choice(["own", "keep"])]
+            lines = ["cfg rht=120 tr=%s up=%s" % (rng.choice(["own", "keep"]), rng.choice(UPS))]
             for _ in range(rng.randint(3, 8)):
                 r = rng.random()
                 if r < 0.4:
@@ -193,7 +205,7 @@ def gen(rng, tier):
                     lines.append("listener " + rng.choice(["ret", "panic", "abort"]))
         else:
             # tr=keep: the RoundTripper forward.New chose is kept (what a caller gets who configures nothing)
-            lines = ["cfg rht=3000 tr=" + rng.choice(["own", "keep"])]
+            lines = ["cfg rht=3000 tr=%s up=%s" % (rng.choice(["own", "keep"]), rng.choice(UPS))]
             for _ in range(rng.randint(6, 24)):
                 r = rng.random()
                 if r < 0.07:
@@ -213,6 +225,10 @@ def exhaustive(tier):
     if tier != "thorough":
         return
     # every failure mode / listener outcome followed by every other one, on one proxy (state must not leak between requests)
+    for up in ["cb", "trace", "rb", "rr-verbose"]:
+        yield ["cfg rht=3000 tr=own up=" + up, "abort s=200 n=100000 sent=50000 seed=1 mode=chunked chunks=1000 rh=Content-Type:text/plain",
+               "abort s=200 n=5000 sent=100 seed=1 mode=cl rh=Content-Type:text/plain",
+               "resp s=404 d=%s seed=9 mode=cl pre=103 rh=Content-Type:text/plain" % digest(9, 5000), "listener abort", "listener panic", "fail close-before"]
     kinds = ["fail refused", "fail reset-before", "fail close-before", "fail garbage", "fail client-cancel", "listener ret", "listener panic",
              "listener abort", "abort s=200 n=5000 sent=100 seed=1 mode=cl rh=Content-Type:text/plain",
              "resp s=200 d=%s seed=9 mode=chunked chunks=1,4096 rh=Content-Type:text/plain" % digest(9, 10000)]
@@ -317,7 +333,11 @@ def monitor(ops, outs):
                 if d["first"] != str(want) or d["rec"] != str(want):
                     bad.append("errmap: line %d failure %s: client got %s (recorded %s), expected %d" % (i, f[1], d["first"], d["rec"], want))
         elif f[0] == "abort":
-            if d["first"] != "aborted":
+            if d["first"] == "short":
+                g = o.split(" ")
+                bad.append("body: line %d backend died after %s of %s body bytes but the client's response ended cleanly (status %s, %s bytes, no read error): a truncated body passed off as complete" % (
+                    i, dict(t.split("=", 1) for t in f[1:] if "=" in t).get("sent"), dict(t.split("=", 1) for t in f[1:] if "=" in t).get("n"), g[1], g[2]))
+            elif d["first"] != "aborted":
                 bad.append("body: line %d backend died after %s of %s body bytes but the client was handed a complete response (%s)" % (
                     i, dict(t.split("=", 1) for t in f[1:] if "=" in t).get("sent"), dict(t.split("=", 1) for t in f[1:] if "=" in t).get("n"), o[:60]))
         if len(bad) > 20:
@@ -341,6 +361,9 @@ def describe(ops, outs, hist):
         f = l.split(" ")
         if f[0] == "cfg":
             hist["cfg:" + (f[2] if len(f) > 2 else "tr=own")] += 1
+            hist["cfg:" + (f[3] if len(f) > 3 else "up=none")] += 1
+        if f[0] == "resp" and " pre=" in l:
+            hist["resp:with-1xx"] += 1
         if f[0] == "fail":
             hist["fail:" + f[1]] += 1
             hist["fail-status:" + o.split(" ")[0]] += 1
